@@ -164,10 +164,11 @@ def run(gaf_path, gfa=None, output=None, index=None, nodes=[], regions=[], forma
 def get_unstable(regions, index):
     """Takes the regions and returns the node IDs"""
 
-    contig = [x.split(":")[0] for x in regions]
+    # CONTIG:START-END; the contig name itself may contain ":", the interval is what follows the LAST one
+    contig = [x.rsplit(":", 1)[0] for x in regions]
     node_dict = {}
-    start = [x.split(":")[1].split("-")[0] for x in regions]
-    end = [x.split(":")[1].split("-")[-1] for x in regions]
+    start = [x.rsplit(":", 1)[1].split("-")[0] for x in regions]
+    end = [x.rsplit(":", 1)[1].split("-")[-1] for x in regions]
 
     result = []
     for n, c in enumerate(contig):
